@@ -123,7 +123,8 @@ func c02(r *core.Run) {
 		case "store":
 			st := ac.Instr.(*ssa.Store)
 			if freshBase(ac.Addr, st) {
-				ok := ac.Fn == a.Enqueue && cb != nil && containsVal(st.Val, cb, 0)
+				cbHere := cbParamIn(p, ac.Fn, a.Enqueue, cb, 0)
+				ok := p.Within(ac.Fn, a.Enqueue) && cbHere != nil && containsVal(st.Val, cbHere, 0)
 				hi := int64(-1)
 				if sl, isSl := st.Val.(*ssa.Slice); isSl && sl.High != nil {
 					hi, _ = core.ConstInt(sl.High)
@@ -136,9 +137,10 @@ func c02(r *core.Run) {
 			good := isCall && core.CalleeName(call) == "builtin:append"
 			if good {
 				lf, ok := core.LoadedField(call.Call.Args[0])
-				good = ok && lf == a.WQueue && len(call.Call.Args) == 2 && cb != nil && elemOfVarargs(call.Call.Args[1]) == ssa.Value(cb)
+				cbHere := cbParamIn(p, ac.Fn, a.Enqueue, cb, 0)
+				good = ok && lf == a.WQueue && len(call.Call.Args) == 2 && cbHere != nil && elemOfVarargs(call.Call.Args[1]) == ssa.Value(cbHere)
 			}
-			r.Check(good && ac.Fn == a.Enqueue, "Q1", fn, "store("+a.WQueue.String()+")=append(self,cb)", p.InstrPos(st), "tail append of the submitted callback to the item's own queue", "store to the callback queue is not a tail-append of the submitted callback (order or content of pending callbacks can change)")
+			r.Check(good && p.Within(ac.Fn, a.Enqueue), "Q1", fn, "store("+a.WQueue.String()+")=append(self,cb)", p.InstrPos(st), "tail append of the submitted callback to the item's own queue", "store to the callback queue is not a tail-append of the submitted callback (order or content of pending callbacks can change)")
 		case "load":
 			ld := ac.Instr.(ssa.Value)
 			okUse := true
@@ -156,7 +158,7 @@ func c02(r *core.Run) {
 						}
 					case *ssa.IndexAddr:
 						desc = append(desc, "index")
-						if ac.Fn != a.Drain {
+						if !p.Within(ac.Fn, a.Drain) {
 							okUse = false
 						}
 					case *ssa.DebugRef:
@@ -188,15 +190,15 @@ func c02(r *core.Run) {
 			case shape == "builtin:append":
 				call := st.Val.(*ssa.Call)
 				lf, lok := core.LoadedField(call.Call.Args[0])
-				ok = ac.Fn == a.Enqueue && lok && lf == a.WorkQueue
+				ok = p.Within(ac.Fn, a.Enqueue) && lok && lf == a.WorkQueue
 				why = "push must be append(load of itself, item) in enqueue"
 			case shape == a.WorkQueue.Name+"[1:]":
-				ok = ac.Fn == a.Worker
+				ok = p.Within(ac.Fn, a.Worker)
 				why = "drop-head only in the worker loop"
 			case shape == a.WorkBuf.Name+"[:0]":
-				if ac.Fn == a.Serve {
+				if p.Within(ac.Fn, a.Serve) {
 					ok = true
-				} else if ac.Fn == a.Worker {
+				} else if p.Within(ac.Fn, a.Worker) {
 					// must be on the len(workqueue)==1 edge
 					for _, ed := range dominatingEdges(st) {
 						if describeCond(ed) == "len "+a.WorkQueue.String()+"==1" {
@@ -206,7 +208,7 @@ func c02(r *core.Run) {
 					why = "reset to the empty buffer prefix is only a drop-head when exactly one item is queued"
 				}
 			case shape == "nil":
-				ok = ac.Fn == a.Close
+				ok = p.Within(ac.Fn, a.Close)
 				why = "nil (closing) only in closeFn"
 			default:
 				why = "unexpected value shape"
@@ -229,7 +231,7 @@ func c02(r *core.Run) {
 	{
 		fn := a.Enqueue
 		fname := core.FuncName(fn)
-		fl := &core.Flow{Fn: fn, Entry: core.StateSet(0).Add(0)}
+		fl := &core.Flow{Fn: fn, Entry: core.StateSet(0).Add(0), Inline: p.IsPrivateHelper}
 		fl.Transfer = func(in ssa.Instruction, s int) core.StateSet {
 			if st, ok := in.(*ssa.Store); ok {
 				if f, ok := core.FieldOf(st.Addr); ok {
@@ -273,8 +275,11 @@ func c02(r *core.Run) {
 
 	// ---- N2 --------------------------------------------------------------
 	for _, fn := range root {
+		if p.IsPrivateHelper(fn) {
+			continue // analysed as part of its callers
+		}
 		has := false
-		for _, ac := range core.FieldAccesses([]*ssa.Function{fn}, func(f core.Field) bool { return f == a.WorkQueue }) {
+		for _, ac := range core.FieldAccesses(p.Helpers(fn), func(f core.Field) bool { return f == a.WorkQueue }) {
 			if ac.Kind == "store" && storeShape(ac.Instr.(*ssa.Store).Val, a) == "builtin:append" {
 				has = true
 			}
@@ -282,7 +287,7 @@ func c02(r *core.Run) {
 		if !has {
 			continue
 		}
-		fl := &core.Flow{Fn: fn, Entry: core.StateSet(0).Add(0)}
+		fl := &core.Flow{Fn: fn, Entry: core.StateSet(0).Add(0), Inline: p.IsPrivateHelper}
 		fl.Transfer = func(in ssa.Instruction, s int) core.StateSet {
 			switch x := in.(type) {
 			case *ssa.Store:
@@ -579,4 +584,36 @@ func c02With(r *core.Run, a *svcAnchors, root []*ssa.Function) {
 			r.Check(st.Only(1) && retNil, "W1", core.FuncName(with), "return:ok-edge:"+returnDesc(ret, conds), p.InstrPos(ret), "handler found: enqueued exactly once, nil returned", fmt.Sprintf("the success edge of With enqueues %v times or returns non-nil", st.List()))
 		}
 	}
+}
+
+// cbParamIn returns the value that denotes enqueue's callback parameter
+// inside fn: the parameter itself in enqueue, or - in a private helper - the
+// parameter that every call site binds to it.
+func cbParamIn(p *core.Prog, fn, enqueue *ssa.Function, cb *ssa.Parameter, depth int) *ssa.Parameter {
+	if cb == nil || depth > 4 {
+		return nil
+	}
+	if fn == enqueue {
+		return cb
+	}
+	if fn.Parent() != nil {
+		return nil
+	}
+	cs := p.CallersOf(fn)
+	if len(cs) == 0 {
+		return nil
+	}
+	for i, prm := range fn.Params {
+		all := true
+		for _, c := range cs {
+			up := cbParamIn(p, c.Parent(), enqueue, cb, depth+1)
+			if up == nil || i >= len(c.Common().Args) || c.Common().Args[i] != ssa.Value(up) {
+				all = false
+			}
+		}
+		if all {
+			return prm
+		}
+	}
+	return nil
 }
